@@ -254,6 +254,8 @@ mod start_time;
 #[cfg(test)]
 mod test_helpers;
 pub mod track;
+#[cfg(feature = "verif-hooks")]
+pub mod verif;
 mod tween;
 mod value;
 
